@@ -300,9 +300,10 @@ func VerifNewLRU(capacity int) *VerifLRU {
 	return &VerifLRU{c: NewLRU(capacity)}
 }
 
-// Set stores a fresh node identified by id under key.
+// Set stores a fresh node identified by id under key. The cache holds leaf
+// and internal pages alike: every third page offset gets an internal node.
 func (l *VerifLRU) Set(key uint64, id uint64, dirty bool) bool {
-	n := &btreeNode{isLeaf: true, fileOffset: key, lastLSN: id, dirty: dirty}
+	n := &btreeNode{isLeaf: (key/pageSize)%3 != 0, fileOffset: key, lastLSN: id, dirty: dirty}
 	return l.c.set(key, n)
 }
 
